@@ -531,6 +531,8 @@ class ClientSys:
             o += [['bind_end'], ['bind_raise']]
         if self.p.get('narrow'):
             return o + self._narrow_ops()
+        if 'subbus' in self.fams:
+            return o + self._subbus_ops()
         if 'node' in self.fams:
             o += self._node_ops()
         if 'buf' in self.fams or 'buf2' in self.fams:
@@ -776,6 +778,37 @@ class ClientSys:
         o += [['b_free_all'], ['b_free_all', 0, True]]
         if 'buf2' in self.fams and not self.blocks:
             o.append(['b_free_all', 1])
+        return o
+
+    VIEW_METHS = {'c': ('clear', 'setn', 'getn', 'set1', 'mapn'),
+                  'a': ('mapan', 'amap')}
+
+    def _subbus_ops(self):
+        """family 'subbus': parents of 1-4 channels (both rates), one synth,
+        and EVERY (offset, channels) view with offset in 0..parent+2 and
+        channels in 1..parent+2, used by every command that can go through
+        or take a bus view"""
+        o = []
+        if len(self.buses) < self.max['bus']:
+            for rate in ('c', 'a'):
+                for ch in (1, 2, 3, 4):
+                    o.append(['bus_new', rate, ch])
+        synth = [k for k, n in enumerate(self.nodes) if n['kind'] == 'synth']
+        if not synth and self.max['synth']:
+            o.append(['s_new', 'init', None, 'addToHead', 'pair'])
+        for k, b in enumerate(self.buses):
+            o.append(['bus_free', k])
+            p = b['ch0']
+            pairs = [(off, ch) for off in range(0, p + 3)
+                     for ch in range(1, p + 3)] if b['state'] == 'live' \
+                else [(0, 1)]       # freed parent: nothing may be emitted
+            for off, ch in pairs:
+                for meth in self.VIEW_METHS[b['rate']]:
+                    if meth in ('mapn', 'mapan', 'amap'):
+                        if synth:
+                            o.append(['c_view', k, off, ch, meth, synth[0]])
+                    else:
+                        o.append(['c_view', k, off, ch, meth])
         return o
 
     def _bus_ops(self):
@@ -1866,6 +1899,66 @@ class ClientSys:
         return {'call': call, 'expect': [exp] if live else [],
                 'may_raise': not live, 'srv': b.get('srv', 0)}
 
+    def _op_c_view(self, k, off, ch, meth, nk=None):
+        """a command through / with the view sub_bus(off, ch) (new_from for
+        odd off + ch) of bus k.  A view inside the parent's block must work
+        and name index + off; any other view is either refused (exception,
+        nothing emitted) or every index its command names lies in the
+        parent's live block"""
+        b = self.buses[k]
+        live = b['state'] == 'live'
+        p, idx = (b['ch'], b['idx']) if live else (0, 0)
+        inside = live and off + ch <= p
+        base = idx + off
+        nid = self.nodes[nk]['id'] if nk is not None else None
+        vals = [0.25 * (i + 1) for i in range(ch)]
+        exp = {'clear': ['/c_fill', base, ch, 0],
+               'setn': ['/c_setn', base, ch] + vals,
+               'getn': ['/c_getn', base, ch],
+               'set1': ['/c_set', base, 0.5],
+               'mapn': ['/n_mapn', nid, 0, base, ch],
+               'mapan': ['/n_mapan', nid, 0, base, ch],
+               'amap': ['/n_set', nid, 'in', 'a' + str(base)]}[meth]
+        # indices the command names
+        named = [base] if meth in ('set1', 'amap') \
+            else list(range(base, base + ch))
+
+        def call():
+            from sc3.synth import bus as busmod
+            if (off + ch) % 2:
+                cls = busmod.ControlBus if b['rate'] == 'c' \
+                    else busmod.AudioBus
+                sub = cls.new_from(b['obj'], off, ch)
+            else:
+                sub = b['obj'].sub_bus(off, ch)
+            if meth == 'clear':
+                return sub.clear()
+            if meth == 'setn':
+                return sub.setn(vals)
+            if meth == 'getn':
+                return sub.getn(None, lambda *a: None)
+            if meth == 'set1':
+                return sub.set(0.5)
+            node = self.nodes[nk]['obj']
+            if meth == 'amap':
+                return node.set('in', sub.as_map())
+            return getattr(node, meth)(0, sub)
+
+        def expect(_):
+            if not live:
+                return []
+            if not inside:
+                out = [i for i in named if not idx <= i < idx + p]
+                if out:
+                    raise _Disagree(
+                        'sub-bus-outside-parent',
+                        f'view ({off}, {ch}) of a {p}-channel bus at {idx} '
+                        f'refused, or only indices {idx}..{idx + p - 1} '
+                        f'named', f'not refused; {exp}')
+            return [exp]
+        return {'call': call, 'expect': expect, 'may_raise': not inside,
+                'srv': b.get('srv', 0)}
+
     def _op_c_get_d(self, k):
         # default action
         b = self.buses[k]
@@ -2275,6 +2368,8 @@ def main(ctx):
     nested = {'fams': ['node', 'buf'], 'narrow': True, 'nest': 2,
               'bind_open': True,
               'max': {'group': 1, 'synth': 1, 'buf': 1}}
+    # every (offset, channels) sub-bus view of 1-4 channel parents
+    subbus = {'fams': ['subbus'], 'max': {'bus': 2, 'synth': 1, 'group': 0}}
     # (params, depth, slice of the last level)
     if ctx.tier == 'quick':
         plan = [(fam_node, 4, 8), (fam_buf, 4, 1), (fam_buf2, 3, 1),
@@ -2282,13 +2377,13 @@ def main(ctx):
                 (opened(fam_node), 3, 4), (opened(fam_buf), 3, 1),
                 (opened(fam_bus), 3, 2), (opened(mixed), 3, 8),
                 (n_node, 5, 1), (n_buf, 5, 1), (n_mixed, 4, 1),
-                (nested, 4, 1)]
+                (nested, 4, 1), (subbus, 4, 1)]
     else:
         plan = [(fam_node, 4, 1), (fam_buf, 5, 2), (fam_buf2, 4, 1),
                 (fam_bus, 5, 4), (fam_node2, 4, 1), (mixed, 4, 2),
                 (opened(fam_node), 3, 1), (opened(fam_buf), 4, 2),
                 (opened(fam_bus), 4, 4), (opened(mixed), 3, 1),
                 (n_node, 6, 1), (n_buf, 6, 1), (n_mixed, 6, 1),
-                (nested, 5, 1)]
+                (nested, 5, 1), (subbus, 5, 1)]
     for params, depth, k in plan:
         run_bfs(ctx, params, depth, slice_k=k)
